@@ -23,6 +23,8 @@ func main() {
 		alphaMain(os.Args[2:])
 	case "textio":
 		textioMain(os.Args[2:])
+	case "cache":
+		cacheMain(os.Args[2:])
 	default:
 		fmt.Fprintf(os.Stderr, "unknown driver %q\n", os.Args[1])
 		os.Exit(2)
